@@ -578,6 +578,7 @@ Not decided: doc-comment attribution (excluded by the property), nom's internals
     }
     hyphen_runs(m, ctx);
     balanced_scanner(m, ctx);
+    mandatory_whitespace(m, ctx);
 }
 
 /// C13.hyphen: `--` opens a comment wherever it occurs outside a string, and a name never ends in a hyphen (X.680 12.2,
@@ -763,4 +764,52 @@ fn balanced_scanner(m: &Model, ctx: &mut Ctx) {
         }
     }
     ctx.floor("C13.scan/texts", n, 20);
+}
+
+/// C13.mandatory: "none where the tokens stay separable" — no boundary may *require* whitespace. A parser that demands
+/// at least one whitespace character (multispace1, space1, line_ending, newline, tab, char(' ') ...) is legitimate only
+/// as one alternative of a trivia loop (`many0(alt((comment, multispace1)))`); used in sequence after a token it rejects
+/// `DEFAULT-1`, `DEFAULT/* c */5` and every other layout without a blank at that place.
+fn mandatory_whitespace(m: &Model, ctx: &mut Ctx) {
+    let names = ["multispace1", "space1", "line_ending", "newline", "tab", "crlf"];
+    let mut sites = 0;
+    for f in m.fns.iter().filter(|f| f.krate == "rasn-compiler" && f.module.starts_with("lexer") && !f.module.contains("tests")) {
+        // every occurrence of such a parser (as a path) and the combinator call it is an argument of
+        struct V<'a> {
+            names: &'a [&'a str],
+            // (parser name, enclosing combinator chain from the outside in, line)
+            out: Vec<(String, Vec<String>, usize)>,
+            stack: Vec<String>,
+        }
+        impl<'a, 'ast> syn::visit::Visit<'ast> for V<'a> {
+            fn visit_expr_call(&mut self, c: &'ast syn::ExprCall) {
+                let n = model::callee_name(c).unwrap_or_default();
+                self.stack.push(n);
+                syn::visit::visit_expr_call(self, c);
+                self.stack.pop();
+            }
+            fn visit_expr_path(&mut self, p: &'ast syn::ExprPath) {
+                let last = p.path.segments.last().map(|s| s.ident.to_string()).unwrap_or_default();
+                if self.names.contains(&last.as_str()) {
+                    self.out.push((last, self.stack.clone(), model::line_of(syn::spanned::Spanned::span(p))));
+                }
+            }
+            fn visit_item(&mut self, _: &'ast syn::Item) {}
+        }
+        let mut v = V { names: &names, out: vec![], stack: vec![] };
+        syn::visit::Visit::visit_block(&mut v, &f.block);
+        for (name, chain, line) in v.out {
+            sites += 1;
+            let key = format!("{}:{}", f.name, name);
+            ctx.oblige("C13.mandatory", &key, true);
+            // accepted shape: ... many0( alt( ( comment, [into_inner(] multispace1 [)] ) ) )
+            let inner: Vec<&str> = chain.iter().map(|x| x.as_str()).filter(|x| *x != "into_inner").collect();
+            let ok = inner.len() >= 2 && inner[inner.len() - 1] == "alt" && ["many0", "many0_count", "fold_many0"].contains(&inner[inner.len() - 2]);
+            if !ok {
+                ctx.violate("C13.mandatory", &format!("whitespace-required:{}", key), &f.file, line,
+                    &format!("`{}` in `{}` (under {}) demands at least one whitespace character at this place: a layout with no blank there — a comment or the next token directly after the previous one — is rejected although the tokens are separable", name, f.name, if chain.is_empty() { "no combinator".to_string() } else { chain.join("(") }));
+            }
+        }
+    }
+    ctx.floor("C13.mandatory/sites", sites, 2);
 }
